@@ -53,15 +53,16 @@ func init() {
 		Level: levelOther,
 		Explanation: "Bounded symbolic execution of the real PreferReplicaNodeSelector, AZAffinityNodeSelector, AZAffinityReplicasAndPrimaryNodeSelector (helper.go: newAZSelector, pickAZ) on node lists with a symbolic AZ byte per node and a symbolic client AZ; the private round-robin counter starts at an arbitrary (symbolic) uint32, so one call sequence of two calls stands for any call history. Oracle: result is -1 or a valid index, lies in the best-ranked candidate set written independently from the documentation, and two consecutive calls rotate.",
 		Assumptions: []string{"counter values within 16 of 2^32 are excluded (rotation hiccup at wrap-around is not part of the statement)", "verifAdvanceCounter sets the closure's captured atomic.Uint32 (engine intrinsic; natively replayed by v calls)"},
-		Outside:     []string{"node lists of 7..253 nodes (quick) / 10..253 (thorough)", "large lists use 9 concrete counter phases: 32-bit remainder by constants near 255 does not finish in the solver"},
+		Outside:     []string{"node lists of 13..253 nodes, and 6..8 nodes in the quick tier", "large lists and the eight-candidate lists use 11 concrete counter phases (all residues modulo 8): 32-bit remainder by constants near 255 does not finish in the solver"},
 		Bounds: map[string]any{
-			"quick":    "0..5 nodes (nil and empty list included), all AZ bytes symbolic, symbolic counter; 254/255/256/257/300 nodes with ≤ 2 symbolic AZ positions",
+			"quick":    "0..5 nodes (nil and empty list included), all AZ bytes symbolic, symbolic counter; 9/10/12 nodes with eight or more same-AZ replicas (primary and 2 positions symbolic, symbolic counter); 254/255/256/257/300 nodes with ≤ 2 symbolic AZ positions",
 			"thorough": "0..8 nodes; same large cases",
 		},
 		specs: func(tier string) []specRef {
 			return []specRef{
 				hs(rootPkg, "VerifC22_small", P{"max_nodes": q(tier, int64(5), 8)}, "sameaz", "primaryaz", "rotate", "fallback"),
 				hs(rootPkg, "VerifC22_large", nil, "sameaz", "rotate"),
+				hs(rootPkg, "VerifC22_many", nil, "sameaz", "rotate"),
 			}
 		},
 	}
